@@ -7,6 +7,8 @@ import (
 	"fmt"
 	"io"
 	mrand "math/rand"
+	"os"
+	"path/filepath"
 	"regexp"
 	"runtime/debug"
 	"strings"
@@ -293,6 +295,11 @@ func runC12(r *ev.Run, rep *ev.ReplayDoc) ev.Summary {
 		Exhaustive: true,
 	}
 	if rep != nil {
+		var u c12UnreadableCase
+		if json.Unmarshal(rep.Case, &u) == nil && u.Unreadable {
+			runC12Unreadable(r, u)
+			return sum
+		}
 		var c c12Case
 		if err := json.Unmarshal(rep.Case, &c); err != nil {
 			r.HarnessError("bad replay case: " + err.Error())
@@ -402,5 +409,63 @@ func runC12(r *ev.Run, rep *ev.ReplayDoc) ev.Summary {
 		}
 		r.Eval(fmt.Sprintf("%s|%d|%t|%s|%t%.8q|%t%t", c.Spec.ID, c.SinkLimit, c.Short, fs, c.InvalidConfig, c.Spec.Boundary, c.Transient, c.Primed), true)
 	})
+	// files on disk that can be opened but not read (a directory): the library's own producer fails at every render
+	for _, kind := range []string{"attach", "embed"} {
+		for _, smime := range []string{"", "rsa", "ecdsa"} {
+			runC12Unreadable(r, c12UnreadableCase{Kind: kind, SMIME: smime, Unreadable: true})
+		}
+	}
 	return sum
+}
+
+type c12UnreadableCase struct {
+	Kind       string `json:"kind"` // attach | embed
+	SMIME      string `json:"smime,omitempty"`
+	Unreadable bool   `json:"unreadable_file"`
+}
+
+func runC12Unreadable(r *ev.Run, c c12UnreadableCase) {
+	dir, err := os.MkdirTemp("", "verif-c12-")
+	if err != nil {
+		r.HarnessError(err.Error())
+		return
+	}
+	defer os.RemoveAll(dir)
+	p := filepath.Join(dir, "report.pdf")
+	if err := os.Mkdir(p, 0o700); err != nil {
+		r.HarnessError(err.Error())
+		return
+	}
+	s := gen.MsgSpec{ID: "c12-unreadable", Enc: "quoted-printable", Subject: "unreadable file", From: gen.AddrSpec{Addr: "sender@example.com"}, To: []gen.AddrSpec{{Addr: "rcpt@example.net"}},
+		Parts: []gen.PartSpec{{Type: "text/plain", Content: []byte("body\r\n")}}, SMIME: c.SMIME}
+	m, err := s.Build(&gen.Env{})
+	if err != nil {
+		r.HarnessError("C12 unreadable build: " + err.Error())
+		return
+	}
+	if c.Kind == "attach" {
+		m.AttachFile(p)
+	} else {
+		m.EmbedFile(p)
+	}
+	for i := 1; i <= 3; i++ {
+		sink := &faultio.Sink{Limit: -1}
+		var n int64
+		var werr error
+		var pan any
+		func() {
+			defer func() { pan = recover() }()
+			n, werr = m.WriteTo(sink)
+		}()
+		r.Count("renders_of_messages_with_an_unreadable_file", 1)
+		switch {
+		case pan != nil:
+			r.Violate(ev.Violation{Key: "panic:unreadable-file", What: fmt.Sprintf("render %d of a message with a file that cannot be read panicked: %v", i, pan), Case: c})
+		case werr == nil:
+			r.Violate(ev.Violation{Key: "silent-success:unreadable-file:" + c.Kind, What: fmt.Sprintf("render %d of a message whose %s is a path that opens but cannot be read: WriteTo returned (%d, nil)", i, c.Kind, n), Case: c})
+		case n != sink.Accepted:
+			r.Violate(ev.Violation{Key: "count:unreadable-file", What: fmt.Sprintf("render %d: WriteTo returned %d, the destination accepted %d bytes", i, n, sink.Accepted), Case: c})
+		}
+	}
+	r.Eval(fmt.Sprintf("unreadable|%+v", c), true)
 }
